@@ -6,7 +6,7 @@
     All theorems quantify over EVERY label list = every client program (any number of handlers,
     RunHandlers / Stop / Close / Run calls and threads) and every schedule. *)
 From WM Require Import Base.Prelude Base.Count RouterLife.Model RouterLife.Monitor RouterLife.Inv
-                       RouterLife.ProofsA RouterLife.ProofsB RouterLife.ProofsW RouterLife.SelfClose RouterLife.Local RouterLife.Theorems RouterLife.Witness.
+                       RouterLife.ProofsA RouterLife.ProofsB RouterLife.ProofsW RouterLife.SelfClose RouterLife.Local RouterLife.Accept RouterLife.Theorems RouterLife.Witness.
 
 (** Running() closed => each of the [run_n] handlers registered when Run's RunHandlers took
     handlersLock is started and holds its (one) subscription. *)
@@ -194,6 +194,19 @@ Theorem C10_no_panic_and_mutex : forall (f4 f14 f15 : bool) (ls : list label),
   /\ hwg s = cnt (fun h => pend (h_loop (hs s h))) (nexth s).
 Proof. exact no_panic_and_mutex. Qed.
 Print Assumptions C10_no_panic_and_mutex.
+
+(** monitor_accepts, the finished part (hence _partial): for EVERY step of RunHandlers - executed
+    by Run or by a client thread [me] that is the lock holder whenever its pc is inside the
+    critical section - the simulation invariant [MInv] between model state and monitor state is
+    preserved and the monitor raises nothing on the emitted events (clause 2, "second successful
+    Subscribe", never fires).  Missing for the full statement "verdict (hist (rinit true true true) ls) = 0":
+    the per-label lemmas for the other 17 label kinds and the reason clauses behind code 6. *)
+Theorem C10_monitor_accepts_partial : forall s m me par p c s1 p' e,
+  SInv s -> MInv s m -> okbad m -> (rhl p = true -> holder s me par p) ->
+  rh_step s me par p c = Some (s1, p', e) ->
+  MInv s1 (mon_run m e) /\ okbad (mon_run m e).
+Proof. exact rh_minv. Qed.
+Print Assumptions C10_monitor_accepts_partial.
 
 (** the hypotheses are satisfiable and the behaviour is non-trivial *)
 Example C10_running_reachable :
